@@ -350,3 +350,81 @@ def evaluate(entry, n, a, b, self_masked=False):
     return out, self_elems, arg_elems
 
 
+
+
+# ------------------------------------------------------------------------------------------------------
+# 2-D containers (FixedArray2D, FixedMatrix): element-wise operators, not task-dispatched but exported
+# array-valued operations all the same
+GRID = {}
+for _n, _base, _mk in (("IntArray2D", "int", lambda k: int(k)), ("FloatArray2D", "float", lambda k: k * 0.5 + (1.0 if k > 0 else -1.0)),
+                       ("DoubleArray2D", "float", lambda k: k * 0.25 + (1.0 if k > 0 else -1.0)),
+                       ("Color4fArray2D", "obj", _v(imath.Color4f, 4)), ("Color4cArray2D", "obj", lambda k: imath.Color4c(abs(k), abs(k) + 1, abs(k) + 2, abs(k) + 3)),
+                       ("IntMatrix", "int", lambda k: int(k)), ("FloatMatrix", "float", lambda k: k * 0.5 + (1.0 if k > 0 else -1.0)),
+                       ("DoubleMatrix", "float", lambda k: k * 0.25 + (1.0 if k > 0 else -1.0))):
+    if hasattr(imath, _n):
+        GRID[_n] = dict(name=_n, T=getattr(imath, _n), base=_base, mk=_mk, matrix=_n.endswith("Matrix"))
+
+
+def grid_build(cls, nx, ny, a, b, signed=True):
+    g = GRID[cls]
+    obj = g["T"](nx, ny)
+    ks = kseq(nx * ny, a, b, signed)
+    vals = {}
+    q = 0
+    for j in range(ny):
+        for i in range(nx):
+            v = g["mk"](ks[q])
+            q += 1
+            if g["matrix"]:
+                obj[i][j] = v     # matrix: (rows=nx, cols=ny), m[row][col]
+            else:
+                obj[i, j] = v
+            vals[(i, j)] = v
+    return obj, vals
+
+
+def grid_shape(cls, obj):
+    if GRID[cls]["matrix"]:
+        return (obj.rows(), obj.columns())
+    return tuple(obj.size())
+
+
+def grid_get(cls, obj, i, j):
+    return obj[i][j] if GRID[cls]["matrix"] else obj.item(i, j)
+
+
+def grid_canon(cls, obj):
+    nx, ny = grid_shape(cls, obj)
+    return {(i, j): repr(grid_get(cls, obj, i, j)) for i in range(nx) for j in range(ny)}
+
+
+def grid_arg(kind, cls, nx, ny, a, b):
+    if kind == "same":
+        return grid_build(cls, nx, ny, a, b, signed=False)
+    if kind == "py:int":
+        return 1 + (a + b) % 3, None
+    if kind == "py:float":
+        return 1.5 + ((a + b) % 4) * 0.25, None
+    if kind == "elem":
+        return GRID[cls]["mk"](1 + (a + b) % 5), None
+    raise ValueError(kind)
+
+
+def grid_expected(entry, self_vals, arg, arg_vals, ij):
+    cls = entry["cls"]
+    g = GRID[cls]
+    m = entry["name"]
+    x = self_vals[ij]
+    y = arg_vals[ij] if arg_vals is not None else arg
+    args = [] if entry["arg"] == "none" else [y]
+    if g["base"] in ("int", "float"):
+        f = numeric_scalar_oracle(m, g["base"])
+        if f is None:
+            raise LookupError("no numeric oracle")
+        r = f(x, *args)
+        et = entry.get("result_base", g["base"])
+        return repr(int(r) if et == "int" else float(r))
+    mm = DUNDER_SCALAR.get(m, m)
+    sc = clone(x)
+    r = getattr(sc, mm)(*args)
+    return repr(sc if (r is None or mm.startswith("__i")) else r)
